@@ -707,6 +707,9 @@ impl PackageBuilder {
         }
 
         let uses_large_files = combined_file_sizes > u32::MAX.into();
+        #[cfg(rpm_verif)]
+        let uses_large_files =
+            uses_large_files || combined_file_sizes > crate::verif::large_file_threshold();
 
         // @todo: sort entries by path?
         // @todo: normalize path?
